@@ -460,6 +460,18 @@ theorem format_never_nil (n : Int) (d : Int) (h : n.natAbs < 2 ^ 1000000) (hd : 
 
 example : formatRocket 5 40 = .ok 0 ∧ formatERC20 5 (-3) = .ok 0 := by decide +kernel
 
+/-! ## what is accepted beyond decimal strings (leads of DESIGN 6, not part of C18) -/
+
+/-- `big.ParseFloat` accepts more than decimal strings, and so does `StrToBigInt`:
+    `Inf` (any sign) silently becomes 0, `e`/`p` exponent forms are amounts. Model and code
+    agree on these (corpus `edge.ops`); C18 speaks of decimal strings only, so this is
+    recorded for the properties about amount validation (C06/C07), not claimed as a defect here. -/
+theorem nondecimal_inputs_accepted :
+    StrToBigInt "Inf".toList = .ok 0 ∧ StrToBigInt "-inf".toList = .ok 0 ∧
+    StrToBigInt "1e30".toList = .ok (10 ^ 48) ∧ StrToBigInt "1p3".toList = .ok (8 * 10 ^ 18) ∧
+    StrToBigInt "1e-30".toList = .ok 0 ∧ StrToBigInt "0x10".toList = .err ∧
+    StrToBigInt "1_000".toList = .err := by decide +kernel
+
 /-! ## the bound is real -/
 
 /-- The round trip without a size bound (what one would like to write). -/
